@@ -255,6 +255,7 @@ func (f *Frame) dispatch(ins ssa.Instruction, call *ssa.CallCommon, ct *callTarg
 			}
 		}
 	}
+	f.recvNonNil(ins, ct, st)
 	// 1. Go-coded library models
 	if ct.fn != nil {
 		if m, ok := libModels[libKey(ct.fn)]; ok {
